@@ -3,11 +3,11 @@
 import json, subprocess
 CLAIMED = {
  "C13": dict(
-   text="Wire-validity contracts on the real frame assemblers: the bytes flushFrame hands to the transport start with an RFC 6455 5.2 header for (FIN, RSV1 only when this frame opens a compressed message, RSV2/3 clear, opcode or continuation, mask bit iff client, the shortest length form incl. the 125/126 and 65535/65536 boundaries, 64-bit lengths below 2^63), of the right total length; control frames are final and at most 125 bytes; after a non-final frame the writer continues with continuation frames and RSV1 cleared; WriteControl emits exactly one whole control frame with the right first two bytes.",
-   note="PARTIAL (as designed): end-to-end delivery of every message through compress/flate, bufio, net and all write APIs, and the opening handshake, are not decidable by per-function contracts here and are not claimed. maskBytes (unsafe) is a trusted contract. Trusted: net.Conn write stream contract, govc, go/ssa, solvers.",
+   text="Wire-validity contracts on the real frame assemblers: the bytes flushFrame hands to the transport start with an RFC 6455 5.2 header for (FIN, RSV1 only when this frame opens a compressed message, RSV2/3 clear, opcode or continuation, mask bit iff client, the shortest length form incl. the 125/126 and 65535/65536 boundaries, 64-bit lengths below 2^63), of the right total length; control frames are final and at most 125 bytes; after a non-final frame the writer continues with continuation frames and RSV1 cleared; WriteControl emits exactly one whole control frame with the right first two bytes. Payload: after the header flushFrame hands over exactly the bytes pending in the write buffer (XORed with the 4-byte key in front of them for a client) and the caller's extra bytes untouched; Conn.write puts exactly its two buffers on the transport, in order (complete unrolling with an unwinding assertion); a ghost 'accepted payload' stream per message writer (flushed bytes ++ pending bytes) is kept unchanged by ncopy and grows by exactly len(p) in Write/WriteString and by exactly the bytes taken from the reader in ReadFrom, whose count is what ReadFrom returns (also when the reader delivers data together with io.EOF).",
+   note="PARTIAL (as designed): end-to-end delivery of every message through compress/flate, bufio, net and all write APIs, and the opening handshake, are not decidable by per-function contracts here and are not claimed. The byte CONTENTS that Write/WriteString/ReadFrom copy into the buffer are not under contract (only their number; the quantified invariants were not decided by the solvers). maskBytes (unsafe) is a trusted model (the RFC 6455 5.3 function). flushFrame's update of the ghost accepted-payload stream is a ghost definition (assumed at call sites, nothing to prove). Trusted: net.Conn write stream contract, io.Reader read stream contract, govc, go/ssa, solvers.",
    design="7/C13"),
  "C15": dict(
-   text="Ghost lock-set discipline on the real writer: the write lock is a 1-slot channel modelled as a mutex; every transport write (conn.Write) happens with it held (guarded obligation at each call), it is released on every path of write/WriteControl/flushFrame (including timeouts and errors), nothing is written once the close-sent latch is set and the latch error is returned, a successful Close sets the latch before the lock is released, and the latch is monotone (first error wins).",
+   text="Ghost lock-set discipline on the real writer: the write lock is a 1-slot channel modelled as a mutex; every transport write (conn.Write) happens with it held (guarded obligation at each call), it is released on every path of write/WriteControl/flushFrame (including timeouts and errors), nothing is written once the close-sent latch is set and the latch error is returned, a successful Close sets the latch before the lock is released, and the latch is monotone (first error wins). Interference: the latch is re-read as arbitrary (within 'set once', which every store is checked to respect) at every lock acquisition, and every transport write requires the latch to have been seen clear in the same critical section.",
    note="The verifier is sequential: 'frames never interleave under any schedule' follows from these obligations by the mutual-exclusion argument of DESIGN 2.4 (stated, not machine-checked). The best-effort isWriting flag and data races on other fields are not decided. Trusted: channel-as-mutex and net.Conn models, govc, go/ssa, solvers.",
    design="7/C15"),
  "C14": dict(
@@ -15,12 +15,12 @@ CLAIMED = {
    note="ASSUMED: user-supplied ping/pong/close handlers do not modify reader state; writes through a slice of the mask-key array field are not tracked; maskBytes (unsafe) and WriteControl are trusted contracts here. Sticky errors in NextReader and the no-short-message-on-cut clause of messageReader.Read are not under contract. Trusted: bufio.Reader Peek/Discard stream contracts, govc, go/ssa, solvers.",
    design="7/C14"),
  "C18": dict(
-   text="The connection-id counter is declared shared/atomic: every plain read or write of it is a failed obligation (the repaired code goes through sync/atomic); WithContext stores exactly the value returned by the atomic increment (so ids are pairwise distinct); AliasContext returns a context carrying exactly its source's id; every logging entry point (Println/Printf/doPrintln/doPrintf) hands exactly one line to the underlying log.Logger on every path (ghost emission counter), for nil contexts, id-carrying objects and context.Context values.",
-   note="The verifier is sequential: uniqueness under concurrency follows from atomicity of the increment (trusted sync/atomic) plus the proved 'stored id = increment result'; whole-line atomicity is log.Logger's (trusted). The text of the prefix (fmt.Sprintf) and Switch/Close racing with loggers are not decided. Trusted: context.WithValue/Value contract, govc, go/ssa, solvers.",
+   text="The connection-id counter is declared shared/atomic: every plain read or write of it is a failed obligation (the repaired code goes through sync/atomic); WithContext stores exactly the value returned by the atomic increment (so ids are pairwise distinct); AliasContext returns a context carrying exactly its source's id; every logging entry point (Println/Printf/doPrintln/doPrintf) hands exactly one line to the underlying log.Logger on every path (ghost emission counter), for nil contexts, id-carrying objects and context.Context values; the first thing on that line is the prefix made by fmt.Sprintf from the pid and the id of the context that was passed (context.Context value / object's Cid() / pid only for nil), with fmt.Sprintf and os.Getpid as uninterpreted pure functions.",
+   note="The verifier is sequential: uniqueness under concurrency follows from atomicity of the increment (trusted sync/atomic) plus the proved 'stored id = increment result'; whole-line atomicity is log.Logger's (trusted). The characters fmt.Sprintf produces and Switch/Close racing with loggers are not decided. Trusted: context.WithValue/Value contract, govc, go/ssa, solvers.",
    design="7/C18"),
  "C07": dict(
-   text="Zero-annotation panic-freedom obligations (index, slice bounds, nil dereference, make size, division, type assertion, explicit panic) generated for every instruction of the listed decoders and enum helpers, for ANY input bytes and all 256/65536 enum values: aac (Decode, SetASC, ASC codec, all String/ToHz/ToProfile/ToObjectType), flv (demuxer, both packagers, every String/ToHz/OpusToHz/From), avc (NALU/record/sample decoders, String), amf0 scalars and Discovery, rtmp (basic header, message header, payload step, ReadMessage loop, control packet decoders, onMessageArrivated); loops carry termination measures where listed.",
-   note="PARTIAL: not covered - AMF0 containers (recursive interface dispatch), RTMP command packet decoders, websocket frame reader, JWS/JWE/JWK parsing, OCSP, JSON+ reader, and the linear-time bound (no cost accounting). Trusted: govc, go/ssa, solvers.",
+   text="Zero-annotation panic-freedom obligations (index, slice bounds, nil dereference, make size, division, type assertion, explicit panic) generated for every instruction of the listed decoders and enum helpers, for ANY input bytes and all 256/65536 enum values: aac (Decode, SetASC, ASC codec, all String/ToHz/ToProfile/ToObjectType), flv (demuxer, both packagers, every String/ToHz/OpusToHz/From), avc (NALU/record/sample decoders, String), amf0 scalars, Discovery and the container decoders (objectBase.unmarshal with both closures, Object/EcmaArray/StrictArray.UnmarshalBinary: panic-free and terminating for all inputs, given the interface contract of the child values), rtmp (basic header, message header, payload step, ReadMessage loop, control packet decoders, onMessageArrivated); loops carry termination measures where listed.",
+   note="PARTIAL: not covered - RTMP command packet decoders, websocket frame reader, JWS/JWE/JWK parsing, OCSP, JSON+ reader, and the linear-time bound (no cost accounting). Trusted: govc, go/ssa, solvers.",
    design="7/C07"),
  "C04": dict(
    text="Ghost lock-set discipline and ordering contracts on the real code: the request is in the transaction table before WriteMessage is called (call-site assertion in WritePacket); every read/write/delete of the table happens with its mutex held (guarded_by obligations at each map access); the mutex is released on every path of WritePacket and parseAMFObject; lookup and delete of a response's transaction happen in one critical section and consume the entry exactly once; frames show the reader API and the writer API share only the guarded table.",
@@ -51,12 +51,12 @@ CLAIMED = {
    note="Trusted: govc, go/ssa, solvers; time.Time modelled as an abstract signed 64-bit nanosecond instant (Add/Sub assumed not to overflow); the sampling goroutine and wall clock of Start are outside the contracts; the counter source is an arbitrary function.",
    design="7/C20"),
  "C05": dict(
-   text="Contracts on every scalar AMF0 codec (UTF-8 names, Number, Boolean, String, null/undefined, object-end): Size() closed forms, marshal length == Size(), wire layout, decode acceptance and values, Size() after decode == bytes consumed; bit-exact Number round trip for all 2^64 patterns and String round trip up to 65535 bytes with trailing data (lemmas).",
-   note="PARTIAL: containers (Object/EcmaArray/StrictArray) are not under contract in this check - their interface-dispatching loops, closures and repeated-key semantics are only covered for panic-freedom; the tree-level induction is not mechanised. Trusted: govc, go/ssa, solvers.",
+   text="Contracts on every scalar AMF0 codec (UTF-8 names, Number, Boolean, String, null/undefined, object-end): Size() closed forms, marshal length == Size(), wire layout, decode acceptance and values, Size() after decode == bytes consumed; bit-exact Number round trip for all 2^64 patterns and String round trip up to 65535 bytes with trailing data (lemmas). Interface contract for every Amf0 value: Size() is a pure function of the value, a successful UnmarshalBinary leaves Size() <= len(input). Containers: BOUNDED lemmas over trees of fixed shape with arbitrary scalar contents and key bytes (object {Number, Boolean}: exact layout, Size, round trip with keys in order, re-marshal; repeated key: Size()==consumed and re-marshal; trailing bytes; ECMA array incl. the count field; nested object).",
+   note="PARTIAL: container clauses are bounded stand-ins (fixed shapes, callees inlined, loops unrolled), not proofs over all trees; the tree-level induction is not mechanised. Known finding: a strict array built through the API does not round-trip (count never maintained). Fixed finding: repeated property name made Size() smaller than the bytes decoded. Trusted: govc, go/ssa, solvers.",
    design="7/C05"),
  "C06": dict(
-   text="Discovery over all 256 marker bytes (supported markers yield a value of exactly that marker, everything else is an error); scalar wire layouts against spec functions written from the AMF0 specification, both directions.",
-   note="PARTIAL: container layouts (object/ECMA array/strict array framing) are not under contract; the library's keyed strict-array layout is pinned by its own tests. Trusted: govc, go/ssa, solvers.",
+   text="Discovery over all 256 marker bytes (supported markers yield a value of exactly that marker, everything else is an error); scalar wire layouts against spec functions written from the AMF0 specification, both directions; object, ECMA-array and nested-object layouts byte by byte in the bounded container lemmas.",
+   note="PARTIAL: container layouts only for the fixed shapes of the bounded lemmas. Known finding: strict arrays are read and written with a name before every value (AMF0 2.12 has none): the conformant encoding of [1.0, true] is rejected; the keyed layout is pinned by the library's own tests. Trusted: govc, go/ssa, solvers.",
    design="7/C06"),
  "C12": dict(
    text="Contracts on the real NALUHeader/NALU/AVCDecoderConfigurationRecord/AVCSample methods from ISO 14496-10 7.3.1 and ISO 14496-15 5.2.4.1.1: all 256 NAL header bytes, NAL unit round trips for any payload size (lemmas), the six fixed record bytes including reserved bits, SPS count = appended list length, loop invariants and termination measures, frame conditions, panic-freedom of all decoders - all unbounded. List-level round trips (2 SPS + 1 PPS; 2-NALU samples for each length size, children of any size) are bounded stand-ins run in the thorough tier.",
